@@ -15,6 +15,7 @@ fn main() {
         }
         "handletable" => run_engine(&mut caoverif::e_handletable::HandleTableEngine::default(), &opts),
         "stacks" => run_engine(&mut caoverif::e_stacks::StacksEngine::default(), &opts),
+        "module" => run_engine(&mut caoverif::e_module::ModuleEngine::default(), &opts),
         other => {
             eprintln!("unknown engine {other}");
             64
